@@ -49,7 +49,14 @@ for mp in sorted(glob.glob(os.path.join(ROOT, 'seeded', '*', 'meta.json'))):
     demo = ('pass' if conf.get('demo_on_clean_tree', '').startswith('ok') else '??') + ' / ' + \
            ('FAIL' if 'FAIL' in conf.get('demo_with_mutant', '') else '??')
     runs = m.get('check_runs', {})
-    verdict = '; '.join('%s: %s' % (k, v['detected_by']) for k, v in sorted(runs.items()))
+    final = None
+    for k in ['full'] + sorted(kk for kk in runs if kk.startswith('full-')) + ['corr']:
+        if k in runs and (final is None or (not final[1]['detected'] and runs[k]['detected'])):
+            final = (k, runs[k])
+    verdict = '%s: %s' % (final[0], final[1]['detected_by']) if final else 'not run'
+    first = m.get('first')
+    if first and final and first['detected_by'] != final[1]['detected_by']:
+        verdict += ' (first run, %s: %s — the check was strengthened afterwards)' % (first['mode'], first['detected_by'])
     if m.get('remark'):
         verdict += ' — ' + m['remark']
     out.append('| %s | %s | %s | %s |' % (sid, what, demo, verdict))
